@@ -892,6 +892,7 @@ pub fn worker(cfg: &WorkerCfg, emit: &mut dyn FnMut(Violation)) -> Stats {
         *stats.counters.entry(format!("strategy_{}{}", sc.strategy.kind, if sc.strategy.kind == "sticky" { format!("_{}", sc.strategy.p) } else if sc.strategy.kind == "pct" { format!("_{}", sc.strategy.d) } else { String::new() })).or_insert(0) += 1;
         // the digest covers the schedule, the event log and every outcome
         let outcomes: Vec<String> = out.results.iter().map(|x| format!("{}:{}:{}", x.thread, x.entry, x.outcome.short().replace(&root, "$R"))).collect();
+        stats.outcome_digests.insert(g, fnv(format!("{:?}", outcomes).as_bytes()));
         if out.foreign_events > 0 {
             // a thread blocked on a lock of the code under test and the token was moved by the
             // wall-clock detector: the schedule of this episode is not a function of the seed;
